@@ -32,6 +32,23 @@ func panicText(f func()) (s string) {
 
 // genPatternString: valid patterns, near-valid edits of them, and limit probes.
 func genPatternString(r *RNG, i int) string {
+	if i%23 == 7 {
+		// wide (not deep) patterns: many atoms, assertions, groups and alternatives side by side; the parser accepts them
+		// whatever their width, so must every limit of the compiler that is meant to bound DEPTH
+		atom := r.Pick([]string{`\bab\b,`, "^a$\n", `a`, `(?:a|b)`, `[a-c]`, `\d+`, `x?`, `(a)`, `\Aa\z|`, `\B.`, `(?m:^)b(?m:$)`, `a|`})
+		n := []int{20, 99, 101, 120, 250, 501, 1001}[r.Intn(7)]
+		switch r.Intn(3) {
+		case 0:
+			return strings.Repeat(atom, n) + "|foo"
+		case 1:
+			if n > 1000 {
+				n = 1000
+			}
+			return fmt.Sprintf("(?:%s){%d}|foo", strings.TrimSuffix(atom, "|"), n)
+		default:
+			return "(?:" + strings.Repeat(atom, n) + ")+z"
+		}
+	}
 	switch i % 10 {
 	case 0, 1, 2:
 		return patternSource(r, i, GenOpts{MaxDepth: 3})
@@ -122,9 +139,10 @@ func checkC09(r *Report, known []Finding) {
 			r.Dist["regexp-accepts"]++
 		}
 		// POSIX
-		_, p1 := regexp.CompilePOSIX(p)
+		stdp, p1 := regexp.CompilePOSIX(p)
 		var p2 error
 		var cxp *coregex.Regex
+		posixMeta := func() {}
 		if guard(20*time.Second, func() string { cxp, p2 = coregex.CompilePOSIX(p); return "" }) == "" {
 			tp := r.Tie("CompilePOSIX: error presence and text")
 			tp.Cases++
@@ -132,7 +150,32 @@ func checkC09(r *Report, known []Finding) {
 				tp.Disagreements++
 				report("CompilePOSIX", p, errStr(p1), errStr(p2))
 			}
-			_ = cxp
+			if p1 == nil && p2 == nil {
+				// metadata of the POSIX value, queried before or after the Perl value's (no answer may depend on which mode of
+				// the same pattern text was asked first)
+				posixMeta = func() {
+					tpm := r.Tie("metadata accessors (CompilePOSIX value)")
+					c := func(api, want, got string) {
+						tpm.Cases++
+						if want != got {
+							tpm.Disagreements++
+							report(api+"(POSIX)", p, want, got)
+						}
+					}
+					a1, b1 := stdp.LiteralPrefix()
+					a2, b2 := cxp.LiteralPrefix()
+					c("LiteralPrefix", fmt.Sprintf("%q,%v", a1, b1), fmt.Sprintf("%q,%v", a2, b2))
+					c("String", stdp.String(), cxp.String())
+					c("NumSubexp", fmt.Sprint(stdp.NumSubexp()), fmt.Sprint(cxp.NumSubexp()))
+					c("SubexpNames", fmt.Sprintf("%q", stdp.SubexpNames()), fmt.Sprintf("%q", cxp.SubexpNames()))
+					cc := cxp.Copy()
+					a3, b3 := cc.LiteralPrefix()
+					c("Copy.LiteralPrefix", fmt.Sprintf("%q,%v", a1, b1), fmt.Sprintf("%q,%v", a3, b3))
+				}
+			}
+		}
+		if i%2 == 0 {
+			posixMeta()
 		}
 		if i%50 == 0 {
 			w := panicText(func() { regexp.MustCompile(p) })
@@ -179,6 +222,9 @@ func checkC09(r *Report, known []Finding) {
 		cp.Longest()
 		cmp("Copy/Longest-isolation", before, fmt.Sprint(cx.FindStringIndex(probe)))
 		cmp("Copy/String", std.String(), cp.String())
+		if i%2 == 1 {
+			posixMeta()
+		}
 	}
 	// QuoteMeta
 	qs := []string{"", "a", ".", `\`, `a.b*c`, `[x]{2}^$|()+?`, "é.世", "\xff.\xfe", `\\.\`, "plain text", "$1", "a\nb"}
